@@ -725,20 +725,25 @@ def check_views(cls=None):
     dt = _imp("sharepoint2text.parsing.extractors.data_types")
     import dataclasses
     icls = {"PdfContent": dt.PdfImage, "PptxContent": dt.PptxImage, "XlsxContent": dt.XlsxImage, "OdpContent": dt.OpenDocumentImage,
-            "OdsContent": dt.OpenDocumentImage}
+            "OdsContent": dt.OpenDocumentImage, "PptContent": dt.PptImage, "DocContent": dt.DocImage, "DocxContent": dt.DocxImage,
+            "XlsContent": dt.XlsImage, "OdgContent": dt.OpenDocumentImage, "OdtContent": dt.OpenDocumentImage, "RtfContent": dt.RtfImage,
+            "EpubContent": dt.EpubImage}
+    flat = ("DocContent", "DocxContent", "XlsContent", "OdgContent", "OdtContent", "RtfContent", "EpubContent")
 
     def mk_image(c, k):
         """Image objects of every shape an extractor can produce: with payload, all-default (no payload: external link),
         error placeholder, zero / missing size -- a view that filters on any field is exposed."""
         cl = icls[c]
         names = {f.name: f for f in dataclasses.fields(cl)}
-        num = "index" if "index" in names else "image_index"
+        num = next((x for x in ("image_index", "image_number", "index") if x in names), None)
         variant = k % 4
-        kw = {num: k}
+        kw = {num: k} if num else {}
         pay = "blob" if "blob" in names else "data"
         raw = bytes([k])
         if variant in (0, 3):
-            kw[pay] = raw if (cl is dt.PdfImage or pay == "blob") else io.BytesIO(raw)
+            ann = str(names[pay].type) if pay in names else ""
+            if pay in names:
+                kw[pay] = io.BytesIO(raw) if "BytesIO" in ann else raw
             if "content_type" in names:
                 kw["content_type"] = "image/png"
         if variant == 2 and "error" in names:
@@ -747,6 +752,10 @@ def check_views(cls=None):
             for dim in ("width", "height"):
                 if dim in names:
                     kw[dim] = 0 if cl in (dt.PdfImage, dt.XlsxImage) else None
+        for f in dataclasses.fields(cl):      # required fields without a default
+            if f.name not in kw and f.default is dataclasses.MISSING and f.default_factory is dataclasses.MISSING:
+                ann = str(f.type)
+                kw[f.name] = k if "int" in ann else ("" if "str" in ann else (raw if "bytes" in ann else None))
         return cl(**kw)
     mk_img = {c: (lambda k, c=c: mk_image(c, k)) for c in icls}
     mk_el = {"PdfContent": lambda imgs, tabs, k: dt.PdfPage(text=f"p{k}", images=imgs, tables=tabs),
@@ -755,7 +764,22 @@ def check_views(cls=None):
              "OdpContent": lambda imgs, tabs, k: dt.OdpSlide(slide_number=k, images=imgs, tables=tabs),
              "OdsContent": lambda imgs, tabs, k: dt.OdsSheet(name=f"S{k}", images=imgs, data=(tabs[0] if tabs else []))}
     field = {"PdfContent": "pages", "PptxContent": "slides", "XlsxContent": "sheets", "OdpContent": "slides", "OdsContent": "sheets"}
+    for c in ([cls] if cls else list(flat) + ["PptContent"]):
+        if c not in flat and c != "PptContent":
+            continue
+        for n in range(0, 6):
+            imgs = [mk_img[c](k) for k in range(1, n + 1)]
+            if c == "PptContent":
+                content = dt.PptContent(slides=[dt.PptSlideContent(slide_number=1, images=imgs[:2]), dt.PptSlideContent(slide_number=2, images=imgs[2:])])
+            else:
+                content = getattr(dt, c)(images=list(imgs))
+            doc = list(content.iterate_images())
+            if [id(x) for x in doc] != [id(x) for x in imgs]:
+                return {"target": f"{c}.iterate_images", "inputs": {"class": c, "images": n, "shapes": "payload / no payload / error placeholder / zero size, cyclic"},
+                        "expected": f"all {n} entries of the image list(s), in order", "observed": f"{len(doc)} images"}
     for c in ([cls] if cls else list(field)):
+        if c not in field:
+            continue
         for shape in itertools.product([0, 1, 2, 3], repeat=3):
             for n in range(0, 4):
                 k = 0
